@@ -17,6 +17,7 @@ import (
 
 	"github.com/safing/portbase/api"
 	"github.com/safing/portbase/config"
+	"github.com/safing/portbase/database"
 	"github.com/safing/portbase/log"
 	"github.com/safing/portbase/modules"
 	"github.com/safing/portbase/rng"
@@ -67,6 +68,9 @@ type Plan struct {
 }
 
 func (H) Generate(prop string, rng *rand.Rand, tier string) any {
+	if prop == "C13" {
+		return genC13(rng, tier)
+	}
 	p := &Plan{WithAuthenticator: rng.IntN(3) != 0}
 	n := 3 + rng.IntN(16)
 	creds := []string{"none", "bearer", "basic", "unknown", "short", "malformed", "cookie", "badcookie", "bridge"}
@@ -120,6 +124,10 @@ func (H) Generate(prop string, rng *rand.Rand, tier string) any {
 }
 
 func (H) Decode(prop string, raw json.RawMessage) (any, error) {
+	if prop == "C13" {
+		p := &DBPlan{}
+		return p, json.Unmarshal(raw, p)
+	}
 	p := &Plan{}
 	return p, json.Unmarshal(raw, p)
 }
@@ -172,6 +180,7 @@ func (handlerT) ServeHTTP(w http.ResponseWriter, r *http.Request) {
 func (H) Reset() {
 	log.VerifSimReset()
 	modules.VerifSimReset()
+	database.VerifSimReset()
 	if !registered {
 		registered = true
 		if err := config.VerifSimRegisterBasic(); err != nil {
@@ -228,6 +237,10 @@ func permStr(spec int) string {
 }
 
 func (H) Execute(prop string, plan any, rc *simkit.RunCtx) {
+	if prop == "C13" {
+		execC13(plan.(*DBPlan), rc)
+		return
+	}
 	p := plan.(*Plan)
 	s := &state{rc: rc, keys: map[string]*keyModel{}}
 	rc.Data = s
@@ -585,6 +598,10 @@ var withAuth bool
 func authSet(s *state) bool { return withAuth }
 
 func (H) Check(prop string, plan any, rc *simkit.RunCtx) {
+	if prop == "C13" {
+		checkC13(plan.(*DBPlan), rc)
+		return
+	}
 	if s, ok := rc.Data.(*state); ok {
 		rc.Probes["requests"] += s.requests
 	}
@@ -597,6 +614,9 @@ func (H) Check(prop string, plan any, rc *simkit.RunCtx) {
 }
 
 func (H) Shrink(prop string, plan any) []any {
+	if prop == "C13" {
+		return shrinkC13(plan.(*DBPlan))
+	}
 	p := plan.(*Plan)
 	var out []any
 	for i := range p.Steps {
